@@ -45,6 +45,10 @@ def equations(year):
         E("1040", "7", "addinst", terms=[("1099-div", "box_2a")], cite="7. Capital gain distributions when Schedule D is not required (Form 1099-DIV box 2a)"),
         E("1040", "25b", "addinst", terms=[("1099-r", "box_4"), ("1099-div", "box_4"), ("1099-int", "box_4"), ("1099-g", "box_4")],
           cite="25b. Federal income tax withheld from Form(s) 1099: box 4 of Forms 1099-R, 1099-DIV, 1099-INT and 1099-G (Form 1040 instructions, line 25b: dividends, interest, unemployment compensation ...)"),
+        E("1040", "4a_plus_4b", "ira4",
+          cite="Form 1040 instructions, lines 4a and 4b (IRA distributions): a fully taxable distribution goes on line 4b (4a blank); with exception 1 (rollover), "
+               "2 (Form 8606) or 3 (qualified charitable distribution) the total goes on line 4a and the taxable part (Form 8606 for exception 2) on line 4b -- "
+               "so 4a + 4b is the total of box 1 of every Form 1099-R with the IRA/SEP/SIMPLE box checked (you AND spouse) plus the Form 8606 taxable amounts"),
         E("1040", "35a", "sub", ["36", "34"], cite="35a. Amount of line 34 you want refunded to you (line 34 minus line 36)"),
         E("8995", "6", "addinst", terms=[("1099-div", "box_5")], cite="Form 8995 line 6: qualified REIT dividends (section 199A dividends, Form 1099-DIV box 5)"),
         E("8995", "11", "subx", ["1040.12", "1040.11"] if year != 2021 else ["1040.12c", "1040.11"], cite="Form 8995 line 11: taxable income before the qualified business income deduction (Form 1040 line 11 minus line 12)"),
